@@ -155,7 +155,7 @@ ANA_TIE = (" Tie for the analyser model (Model/Src.lean, Model/Analyze.lean): S-
            "warning records of the model with those of ASTWalker+MyPyAstVisitor on the very same nodes; sets reach the model in a "
            "shuffled order.")
 TEXT["C01"] = dict(
-    technique="Lean 4 proof (totality of the generator model on a decidable scope; exact error set outside it) + S-B/S-A/S-E outcome correspondence",
+    technique="Lean 4 proof (totality of the generator model on a decidable scope; exact error set outside it; Hoare-style stack invariant through every function of the visitor: no internal guard can fire, whole run never ends in AssertionError) + S-B/S-A/S-E outcome correspondence",
     text="Proof: Theorems/C01 proves generator_total: for EVERY API value satisfying the decidable predicate Scope01 (every reached "
          "type renderable and importable, every reached private superclass resolvable, nesting within the fuel) the generator "
          "model runs to completion for both naming settings and any pre-existing files; never_keyError / errors_only_from_scope: "
